@@ -1006,6 +1006,14 @@ def fragment_graph(B, st, F, S, prefix, nest=False, first_abstract=False):
                    i_typename=i_typename, tkinds=tkinds)
 
 
+def object_model(R, o, g):
+    """a model of the path, preferring one whose fragments are all on the object type (fragments on abstract types must
+    select `__typename` to pass validation, which the rendered replay text would then lack)"""
+    obj = g['tkinds'].index('Object')
+    m = R.vm.model(o.state, extra=[k == obj for k in g['on_kind']])
+    return m if m is not None else R.vm.model(o.state)
+
+
 def fragments_of_model(m, g):
     names = {g['tkinds'].index('Object'): 'Obj', g['tkinds'].index('Interface'): 'Iface', g['tkinds'].index('Union'): 'Uni'}
     out = []
@@ -1099,7 +1107,7 @@ def k_collect_used_types(R, F, S):
     g = holder.get('g')
     for o in outs:
         if o.kind in ('loop', 'limit'):
-            m = R.vm.model(o.state)
+            m = object_model(R, o, g)
             out.append(dict(kernel='collect_used_types', prop='C17', what=o.msg, fragments=fragments_of_model(m, g) if m else None))
         elif o.kind != 'return':
             m = R.prove('collect_used_types', o, z3.BoolVal(False), 'no panic')
@@ -1177,8 +1185,8 @@ def k_fragment_is_recursive(R, F, S):
                     false_paths.append(z3.And(*(o.state.pc + [z3.Not(v)])))
                     R.discharged += 1
             elif o.kind in ('loop', 'limit'):
-                m = R.vm.model(o.state)
-                out.append(dict(kernel='fragment_is_recursive', prop='C17', what=o.msg, fragments=fragments_of_model(m, g) if m else None))
+                m = object_model(R, o, g)
+                out.append(dict(kernel='fragment_is_recursive', prop='C17', what=o.msg, target=f'F{target}', fragments=fragments_of_model(m, g) if m else None))
             else:
                 m = R.prove('fragment_is_recursive', o, z3.BoolVal(False), 'no panic')
                 if m is not None:
